@@ -116,3 +116,14 @@ def register(R):
                           "havoc_locals": ["sample_idxs_grouped", "cls", "cls_idx", "p_individual"],
                           "havoc_fields": {"_p_distribution": "Opaque[AnyList]"},
                           "invariant": ["bag_within(sample_idxs_grouped, from_index, to_index)"]}})
+
+    LD = LM + "LabelDirichletInjector"
+    R.klass(LD, fields={"_columns": "Opt[Opaque[Cols2]]", "_alpha_classes": "Opaque[AnyList]", "_alpha_values": "Opaque[AnyList]",
+                        "_dirichlet_distribution": "Opaque[AnyList]", "_dirichlet_probabilities": "Opaque[AnyDict]"}, invariant=[])
+    R.contract(LD + ".__call__", tags=("C20",),
+               params={"data": "Data2", "from_index": "Int", "to_index": "Int", "target_col": "Int", "alpha": "Opaque[AnyDict]"},
+               requires=WINDOW + ["valid_col(data, target_col)"],
+               raises={"ValueError": {"when": "True"}},
+               ensures=[SAME, ROWS_OUT, ROWS_IN, INPUT_KEPT],
+               modifies=["_alpha_classes", "_alpha_values", "_dirichlet_distribution", "_dirichlet_probabilities"],
+               check_invariant=False)
